@@ -2,12 +2,15 @@ use crate::fw::*;
 
 pub mod c03_arith;
 pub mod c04_jump;
+pub mod c06_journal;
 pub mod c12_stack;
 pub mod c13_gas;
 pub mod c15_c19;
 pub mod c20_wrappers;
 pub mod c21_collision;
+pub mod c22_reward;
 pub mod c27_bytecode;
+pub mod c31_reuse;
 pub mod c28_inspectors;
 pub mod c32_blob;
 pub mod online;
@@ -29,6 +32,8 @@ pub fn dispatch(ctx: &Ctx) -> i32 {
         "C15" | "C16" | "C17" | "C18" | "C19" => c15_c19::run(ctx),
         "C20" => c20_wrappers::run(ctx),
         "C21" => c21_collision::run(ctx),
+        "C22" => c22_reward::run(ctx),
+        "C31" => c31_reuse::run(ctx),
         "C12" => c12_stack::run(ctx),
         "C13" => c13_gas::run(ctx),
         "C32" => c32_blob::run(ctx),
